@@ -124,6 +124,9 @@ static int inList(int v, int *l, int n)
     return 0;
 }
 
+static int g_cliTls13;    /* client also enables TLS 1.3 (TLS 1.3 ClientHello) */
+static int g_sigAlgsWith256; /* client's restricted list includes sha256 */
+
 static int run(int mode, int restrictCurves, int restrictSigAlgs,
         int32 srvEcFlags, const char *what, int *alertAtClient)
 {
@@ -153,6 +156,16 @@ static int run(int mode, int restrictCurves, int restrictSigAlgs,
     matrixSslRegisterSNICallback(srv, evilServerSni);
 
     co.versionFlag = SSL_FLAGS_TLS_1_2;
+    if (g_cliTls13)
+    {
+        co.versionFlag = 0;
+        if (matrixSslSessOptsSetClientTlsVersionRange(&co, v_tls_1_2,
+                    v_tls_1_3) < 0) exit(2);
+    }
+    if (g_sigAlgsWith256)
+    {
+        sa[0] = sigalg_rsa_pkcs1_sha256;
+    }
     if (restrictCurves)
     {
         co.ecFlags = SSL_OPT_SECP384R1 | SSL_OPT_SECP521R1;
@@ -164,8 +177,8 @@ static int run(int mode, int restrictCurves, int restrictSigAlgs,
     matrixSslNewHelloExtension(&ext, NULL);
     matrixSslCreateSNIext(NULL, (unsigned char *) "localhost", 9, &sni, &sniLen);
     matrixSslLoadHelloExtension(ext, sni, sniLen, EXT_SNI);
-    rc = matrixSslNewClientSession(&cli, ck, NULL, suite, 1, acceptAllCerts,
-            NULL, ext, NULL, &co);
+    rc = matrixSslNewClientSession(&cli, ck, NULL, g_cliTls13 ? NULL : suite,
+            g_cliTls13 ? 0 : 1, acceptAllCerts, NULL, ext, NULL, &co);
     if (rc != MATRIXSSL_REQUEST_SEND) { printf("client new: %d\n", rc); exit(2); }
 
     runHandshake(cli, &cs, srv, &ss, sniff);
@@ -186,12 +199,35 @@ static int run(int mode, int restrictCurves, int restrictSigAlgs,
     return rc;
 }
 
-int main(void)
+int main(int argc, char **argv)
 {
     int done, alert, bad = 0;
+    int doA = (argc < 2 || argv[1][0] == 'a');
+    int doB = (argc < 2 || argv[1][0] == 'b');
 
     if (matrixSslOpen() < 0) return 2;
 
+    /* honest handshakes of the affected kind must work */
+    done = run(0, 1, 0, 0,
+            "sanity-1: honest server, client restricted to secp384r1/521r1", &alert);
+    if (!done || !inList(g_skeCurve, g_chGroups, g_chGroupsLen))
+    { printf("honest ECDHE handshake failed\n"); return 2; }
+    g_cliTls13 = 1;
+    done = run(0, 0, 0, 0,
+            "sanity-2: client with TLS 1.3+1.2 (TLS 1.3 ClientHello), TLS 1.2 server",
+            &alert);
+    g_cliTls13 = 0;
+    if (!done || !inList(g_skeCurve, g_chGroups, g_chGroupsLen))
+    { printf("honest ECDHE handshake (TLS 1.3 ClientHello) failed\n"); return 2; }
+    g_sigAlgsWith256 = 1;
+    done = run(0, 0, 1, 0,
+            "sanity-3: honest server, client offers rsa_pkcs1_sha256/512 only", &alert);
+    g_sigAlgsWith256 = 0;
+    if (!done || !inList(g_skeSigAlg, g_chSigAlgs, g_chSigAlgsLen))
+    { printf("honest handshake with restricted sigalgs failed\n"); return 2; }
+
+    if (doA)
+    {
     /* (a) curve */
     done = run(0, 1, 0, SSL_OPT_SECP192R1,
             "a-control: honest server that only has secp192r1 enabled", &alert);
@@ -210,7 +246,10 @@ int main(void)
                "supported_groups\n", g_skeCurve);
         bad = 1;
     }
+    }
 
+    if (doB)
+    {
     /* (b) signature algorithm */
     done = run(0, 0, 1, 0,
             "b-control: honest server, client offers only rsa_pkcs1_sha384/512",
@@ -231,6 +270,9 @@ int main(void)
                "signature_algorithms\n", g_skeSigAlg);
         bad = 1;
     }
-    if (!bad) printf("no violation\n");
+    }
+    if (!bad) printf("OK: the client rejected the curve / signature "
+                     "algorithm it had not offered (parts run:%s%s)\n",
+                     doA ? " a" : "", doB ? " b" : "");
     return bad;
 }
